@@ -185,6 +185,27 @@ func (x *Exec) resolveType(pkgPath, s string) types.Type {
 			}
 		}
 	}
+	// unexported type of another repository package: [*]pkg.name
+	{
+		ptr := strings.HasPrefix(s, "*")
+		q := strings.TrimPrefix(s, "*")
+		if i := strings.Index(q, "."); i > 0 {
+			for _, p := range x.pkgs {
+				if p.Types.Name() == q[:i] {
+					if obj := p.Types.Scope().Lookup(q[i+1:]); obj != nil {
+						if tn, ok := obj.(*types.TypeName); ok {
+							var t types.Type = tn.Type()
+							if ptr {
+								t = types.NewPointer(t)
+							}
+							x.typeCache[key] = t
+							return t
+						}
+					}
+				}
+			}
+		}
+	}
 	panic(specErr{fmt.Sprintf("cannot resolve type %q in package %s", s, pkgPath)})
 }
 
@@ -1207,6 +1228,28 @@ func (c *SpecCtx) call(e *Expr, pos bool) *Term {
 			return tTrue
 		}
 		return mk("Bool", "(forall ((r Int)) (! (=> "+cond+" (and (= (select "+cd.S+" r) (select "+od.S+" r)) (= (select "+cv.S+" r) (select "+ov.S+" r)))) :pattern ((select "+cd.S+" r)) :pattern ((select "+cv.S+" r))))")
+	case "oldUnchanged":
+		// oldUnchanged(x.f): field f of every object that existed in the pre-state is as it was
+		fe := e.Args[0]
+		if fe.Op != "field" {
+			c.fail("oldUnchanged expects obj.field")
+		}
+		obj := c.tr(fe.Args[0], false)
+		n := c.fieldArrayName(obj, fe.Name)
+		save := c.inOld
+		c.inOld = false
+		cur := c.heapArr(n)
+		c.inOld = true
+		old := c.heapArr(n)
+		c.inOld = save
+		if cur.S == old.S {
+			return tTrue
+		}
+		base := c.st.alloc0
+		if c.hasOld {
+			base = c.oldAlloc
+		}
+		return mk("Bool", "(forall ((r Int)) (! (=> (<= r "+base.S+") (= (select "+cur.S+" r) (select "+old.S+" r))) :pattern ((select "+cur.S+" r))))")
 	case "frameMap":
 		// frameMap(m1, m2, ...): every map object of that type other than m1, m2, ... is as in the pre-state
 		m := arg(0)
